@@ -34,6 +34,8 @@ type c33Input struct {
 	// performs its FIRST operation on a fresh name that nothing has touched before; the name is
 	// never registered, or is registered by one more goroutine released at the same instant
 	Race []c33Race `json:"race,omitempty"`
+	// recorder phase (c33_rec.go): the dynsampler metrics recorder of sample/sample.go on this store
+	Rec *c33Rec `json:"rec,omitempty"`
 }
 
 // one fresh name: the operations of the racing goroutines (one each)
@@ -144,6 +146,9 @@ func c33Gen(r *rand.Rand, tier string, i int) any {
 			}
 			in.Race = append(in.Race, rc)
 		}
+	}
+	if r.Intn(3) == 0 {
+		in.Rec = c33GenRec(r, tier)
 	}
 	return in
 }
@@ -444,8 +449,18 @@ func c33Run(raw json.RawMessage) (Case, error) {
 	if reRegAfterUse {
 		tags = append(tags, "register-after-use")
 	}
-	coq := fmt.Sprintf("{| c_ops := %s; c_race := %s; c_obs := %s |}", cq.List(ops), cq.ListN(raceNames), cq.List(obs))
-	return Case{Coq: coq, Key: strings.Join(ops, ";"), Nontriv: reRegAfterUse || len(in.Race) > 0, Tags: tags,
+	recObs := "[]"
+	if in.Rec != nil {
+		ro, lines, err := c33RunRec(m, in.Rec)
+		if err != nil {
+			return Case{}, err
+		}
+		recObs = ro
+		human = append(human, lines...)
+		tags = append(tags, "dynsampler-recorder")
+	}
+	coq := fmt.Sprintf("{| c_ops := %s; c_race := %s; c_obs := %s; c_rec := %s |}", cq.List(ops), cq.ListN(raceNames), cq.List(obs), recObs)
+	return Case{Coq: coq, Key: strings.Join(ops, ";"), Nontriv: reRegAfterUse || len(in.Race) > 0 || in.Rec != nil, Tags: tags,
 		Summary: map[string]any{"history": human}}, nil
 }
 
@@ -467,6 +482,25 @@ func c33Shrink(raw json.RawMessage) []json.RawMessage {
 			c := in
 			c.Block = smKeep(in.Block, keep)
 			add(c)
+		}
+	}
+	if in.Rec != nil {
+		if len(in.Ops) > 0 || len(in.Tail) > 0 || in.Par > 1 || len(in.Race) > 0 {
+			c := in
+			c.Ops, c.Tail, c.Par, c.Block, c.Race = nil, nil, 0, nil, nil
+			add(c)
+		}
+		c := in
+		c.Rec = nil
+		add(c)
+		if len(in.Rec.Steps) > 1 {
+			for _, keep := range smChunkRemovals(len(in.Rec.Steps)) {
+				c := in
+				rc := *in.Rec
+				rc.Steps = smKeep(in.Rec.Steps, keep)
+				c.Rec = &rc
+				add(c)
+			}
 		}
 	}
 	if len(in.Race) > 0 {
